@@ -120,10 +120,40 @@ for _k in range(len(SMARTS_PANEL)):
     OBSERVERS['smarts%d_all' % _k] = (lambda k: lambda m: _mappings(_query(k), m, False))(_k)
 
 
+def _rxn_on_copy(r, method):
+    c = r.copy()
+    res = getattr(c, method)()
+    return [res if isinstance(res, (bool, int)) else None, str(c), format(c, 'm')]
+
+
+RXN_OBSERVERS = {
+    'rxn_str': lambda r: str(r),
+    'rxn_fmt_m': lambda r: format(r, 'm'),
+    'rxn_fmt_h': lambda r: format(r, 'h'),
+    'rxn_cgr': lambda r: sorted((min(n, m), max(n, m), b.order, b.p_order) for n, m, b in r.compose().bonds()),
+    'rxn_cgr_order': lambda r: [(n, a.atomic_number, a.charge, a.p_charge) for n, a in r.compose().atoms()],
+    'rxn_centers': lambda r: list(r.compose().center_atoms),
+    'rxn_canonicalize': lambda r: _rxn_on_copy(r, 'canonicalize'),
+    'rxn_standardize': lambda r: _rxn_on_copy(r, 'standardize'),
+    'rxn_kekule': lambda r: _rxn_on_copy(r, 'kekule'),
+    'rxn_thiele': lambda r: _rxn_on_copy(r, 'thiele'),
+    'rxn_members': lambda r: [[str(m) for m in r.reactants], [str(m) for m in r.reagents], [str(m) for m in r.products]],
+}
+OBSERVERS.update(RXN_OBSERVERS)
+
+
 def load(src):
     from chython import smiles
-    if src[0] == 'smi':
+    if src[0] == 'smi' or src[0] == 'rxnsmi':
         return smiles(src[1])
+    if src[0] == 'rxnfile':
+        import os
+        from chython import RDFRead
+        with RDFRead(os.path.join(os.environ['VERIF_REPO'], 'test', src[1])) as r:
+            for k, rec in enumerate(r):
+                if k == src[2]:
+                    return rec
+        raise ValueError('record not found')
     if src[0] == 'file':
         import os
         from chython import SDFRead, RDFRead, MRVRead
